@@ -62,7 +62,7 @@ func drawC11(t *rapid.T) c11Case {
 	}
 	if rapid.IntRange(0, 3).Draw(t, "withOwn") == 0 {
 		c.Locked, c.Strace = true, false
-		c.Own = []string{"prior-no-nnp", "prior-nnp", "prctl-denied"}[rapid.IntRange(0, 2).Draw(t, "own")]
+		c.Own = []string{"prior-no-nnp", "prior-nnp", "prctl-denied", "seccomp-enosys"}[rapid.IntRange(0, 3).Draw(t, "own")]
 		if c.Own != "prior-nnp" {
 			c.Uid = 0
 		}
@@ -109,6 +109,10 @@ func checkC11(raw json.RawMessage) (ev.Result, error) {
 		job.Steps = append(job.Steps, kjob.Step{Op: "load", Thread: 0, Filter: &kjob.FilterSpec{Policy: pp, NNP: c.Own == "prior-nnp", Flag: 0, HostArch: true}})
 	case "prctl-denied":
 		job.Steps = append(job.Steps, kjob.Step{Op: "outer-deny-nnp-thread", Thread: 0})
+	case "seccomp-enosys":
+		// as root and without touching the bit: on the calling thread seccomp(2) answers ENOSYS (old kernel, container
+		// profile). Nothing can be installed through it; the bit must not be set unless requested.
+		job.Steps = append(job.Steps, kjob.Step{Op: "outer-enosys-thread-nonnp", Thread: 0})
 	}
 	stControl := len(job.Steps)
 	job.Steps = append(job.Steps, kjob.Step{Op: "control", Sched: &sched})
@@ -143,6 +147,10 @@ func checkC11(raw json.RawMessage) (ev.Result, error) {
 	case "prctl-denied":
 		if oe := rr.Find(stOwn, "outer-deny-nnp"); len(oe) != 1 || oe[0].Err != "" {
 			return ev.Result{}, ev.Inconclusivef("could not install the prctl-denying filter")
+		}
+	case "seccomp-enosys":
+		if oe := rr.Find(stOwn, "outer-enosys"); len(oe) != 1 || oe[0].Err != "" {
+			return ev.Result{}, ev.Inconclusivef("could not install the ENOSYS-answering filter")
 		}
 	}
 	if len(le) != 1 || len(ce) != 1 || len(before) != 1 || len(after) != 1 {
@@ -194,6 +202,9 @@ func checkC11(raw json.RawMessage) (ev.Result, error) {
 				return res, fmt.Errorf("LoadFilter failed (%s), but Seccomp_filters of thread %d went %d -> %d (%s)", ld.Err, s.Tid, old, s.Filters, desc)
 			}
 		}
+	} else if c.NNP && c.Own == "seccomp-enosys" && !ld.Nil {
+		// seccomp(2) is not available: the load cannot succeed; the bit may have been set on the way (it was requested)
+		res.Classes = append(res.Classes, "load-failed-because-seccomp-is-unavailable")
 	} else if c.NNP {
 		// requested: the load succeeds in every configuration, the bit is set before and on the installing thread
 		if !ld.Nil {
@@ -251,7 +262,7 @@ func checkC11(raw json.RawMessage) (ev.Result, error) {
 				}
 			}
 			res.Classes = append(res.Classes, "unprivileged-load-refused")
-		} else if !ld.Nil {
+		} else if !ld.Nil && c.Own != "seccomp-enosys" {
 			return res, fmt.Errorf("privileged load without no_new_privs failed: %s", ld.Err)
 		}
 	}
